@@ -742,6 +742,35 @@ pub fn run(ctx: &mut Ctx, replay_path: Option<&str>) {
             None => ctx.count("wide_credential.not_issued"),
         }
     }
+    // very large disclosures (an embedded scan or document): the digest is the SHA-256 of the WHOLE base64url text whatever its
+    // length; block sizes of encoders and hashers (3, 4, 64 bytes, powers of two, 48 KiB) all fall inside these lengths
+    #[cfg(not(feature = "mock"))]
+    {
+        let mut lens: Vec<usize> = vec![4095, 4096, 4097, 49151, 49152, 49153, 65535, 65537, (1 << 20) + 1];
+        lens.extend(if ctx.tier == Tier::Quick { vec![(9 << 20) + 7] } else { vec![(4 << 20) + 1, (8 << 20) - 20, (8 << 20) + 1, (9 << 20) + 7, (16 << 20) + 31, (33 << 20) + 5] });
+        for (k, len) in lens.into_iter().enumerate() {
+            let claims = json!({"iss": "https://issuer.example", "exp": now + 100000, "scan": "Ab9-".repeat(len / 4) + &"x".repeat(len % 4), "holder_of": {"document": "y".repeat(len / 2), "n": k}});
+            let a = IssueArgs { claims, strategy: if k % 2 == 0 { Strategy::All } else { Strategy::Top }, holder: None, decoy: k % 3 == 0, fmt: if k % 2 == 0 { Fmt::Compact } else { Fmt::Json }, key: KeyId::Hmac1, alg: Some("HS256".into()), queue: None };
+            let res = issue(&a);
+            ctx.impl_calls += 1;
+            ctx.evaluations += 1;
+            ctx.oracle_checks += 1;
+            let case = json!({"kind": "large-disclosure", "string_length": len, "strategy": if k % 2 == 0 { "all" } else { "top" }, "fmt": a.fmt.name()});
+            match res.out.ok() {
+                Some(issued) => {
+                    let chk = check_issuance(a.fmt, issued, &res.salts);
+                    ctx.count("large_disclosure.issued");
+                    if !chk.problems.is_empty() {
+                        ctx.violation("oracle", "issue", &format!("credential with a {}-byte string claim: {}", len, chk.problems[0]), case, json!({"problems": chk.problems.iter().take(5).collect::<Vec<_>>(), "count": chk.problems.len()}),
+                                      json!("every salt a logged draw used once; every disclosure's SHA-256 embedded exactly once; no other digest"));
+                    } else {
+                        ctx.nontrivial(&case);
+                    }
+                }
+                None => ctx.count("large_disclosure.not_issued"),
+            }
+        }
+    }
     if seen.n >= MIN_SALTS_FOR_BIT_TEST {
         ctx.oracle_checks += 1;
         let (z, bit) = max_abs_z(&seen.ones, seen.n);
